@@ -155,7 +155,36 @@ func (wk *worker) eval(t Tuple) (er evalResult) {
 		}
 		return
 	}
-	if !allStored {
+	// A MultiProof batch in which some ids have no stored result: the call must either fail as a whole or
+	// return, for EVERY id it reports, proofs that verify end to end (checked below like any other response).
+	partial := false
+	if !allStored && t.Kind == "multi" {
+		_, firstStored := st.results[t.IDs[0]]
+		anyStored := false
+		for _, id := range t.IDs {
+			if _, ok := st.results[id]; ok {
+				anyStored = true
+			}
+		}
+		switch {
+		case !anyStored:
+			er.saw("batch-shape:all-missing")
+		case !firstStored:
+			er.saw("batch-shape:first-missing-later-stored")
+		default:
+			er.saw("batch-shape:first-stored-later-missing")
+		}
+		switch {
+		case panicked != "":
+			er.saw("batch-with-missing-id:panic")
+			return
+		case err != nil:
+			er.saw("batch-with-missing-id:failed-as-a-whole:" + errClass(err))
+			return
+		}
+		partial = true
+	}
+	if !allStored && !partial {
 		switch {
 		case panicked != "":
 			er.saw("result-not-stored:panic")
@@ -211,7 +240,11 @@ func (wk *worker) eval(t Tuple) (er evalResult) {
 			return
 		}
 		relayData, verifyData = o.RelayData, o.VerifyData
-		if len(verifyData) != len(t.IDs) {
+		if partial && len(verifyData) == 0 {
+			er.saw("batch-with-missing-id:empty-response")
+			return
+		}
+		if !partial && len(verifyData) != len(t.IDs) {
 			er.fail = failf("multi-proof-length", "%d ids requested, %d oracle data proofs relayed", len(t.IDs), len(verifyData))
 			return
 		}
@@ -271,17 +304,36 @@ func (wk *worker) eval(t Tuple) (er evalResult) {
 		} else {
 			structs = multi.Result.Proof.OracleDataMultiProof
 		}
+		next := 0 // partial responses: the reported ids must be a subsequence of the requested ids
 		for i, vd := range verifyData {
 			v, fl := verifyOracleData(vd, oracleRoot, H)
 			if fl != nil {
 				er.fail = fl
 				return
 			}
-			if v.Result.RequestID != t.IDs[i] {
-				er.fail = failf("proved-result-of-other-request", "asked %d, proved %d", t.IDs[i], v.Result.RequestID)
+			want := uint64(0)
+			if partial {
+				for next < len(t.IDs) && t.IDs[next] != v.Result.RequestID {
+					next++
+				}
+				if next == len(t.IDs) {
+					er.fail = failf("batch-reports-unrequested-id", "batch %v: reported proof %d is for request %d", t.IDs, i, v.Result.RequestID)
+					return
+				}
+				want = t.IDs[next]
+				next++
+				if _, ok := st.results[want]; !ok {
+					er.fail = failf("batch-reports-unstored-id", "batch %v: proof reported for request %d which has no result at version %d", t.IDs, want, H-1)
+					return
+				}
+			} else {
+				want = t.IDs[i]
+			}
+			if v.Result.RequestID != want {
+				er.fail = failf("proved-result-of-other-request", "asked %d, proved %d", want, v.Result.RequestID)
 				return
 			}
-			if fl := compareResult(st.results[t.IDs[i]], v.Result, "state"); fl != nil {
+			if fl := compareResult(st.results[want], v.Result, "state"); fl != nil {
 				er.fail = fl
 				return
 			}
@@ -304,7 +356,11 @@ func (wk *worker) eval(t Tuple) (er evalResult) {
 			shapeLabels(&er, v.MerklePaths)
 			er.saw(fmt.Sprintf("result-status:%d", v.Result.ResolveStatus))
 		}
-		er.saw(kind + ":verified")
+		if partial {
+			er.saw("batch-with-missing-id:partial-response-verified")
+		} else {
+			er.saw(kind + ":verified")
+		}
 	}
 	sum := sha256.Sum256(evm)
 	er.proofKey = string(sum[:8])
@@ -452,6 +508,49 @@ func accumulationTuples(c *chain, states func(int64) *versionState) []Tuple {
 		}
 	}
 	return out
+}
+
+// batchTuples: MultiProof batches over the alphabet {R1: result stored by block W1, R2: result stored by a
+// block W2 != W1, P: request exists but is still pending (no result), X: id that never exists}, every
+// sequence (with repetition) of length 1..3, at every header height at which all four classes exist.
+func batchTuples(c *chain, states func(int64) *versionState) (out []Tuple, heights []int64) {
+	for H := int64(3); H <= c.last; H++ {
+		st := states(H - 1)
+		var r1, r2, p uint64
+		for id := uint64(1); id <= uint64(c.n); id++ {
+			_, stored := st.results[id]
+			switch {
+			case stored && r1 == 0:
+				r1 = id
+			case stored && c.resolvedAt[id] != c.resolvedAt[r1]:
+				r2 = id // the latest one resolved in another block
+			case !stored && id <= st.count && p == 0:
+				p = id
+			}
+		}
+		if r1 == 0 || r2 == 0 || p == 0 {
+			continue
+		}
+		heights = append(heights, H)
+		alpha := []uint64{r1, r2, p, uint64(c.n) + 7}
+		sc := chainScenario(c, H)
+		for l := 1; l <= 3; l++ {
+			total := 1
+			for i := 0; i < l; i++ {
+				total *= len(alpha)
+			}
+			for x := 0; x < total; x++ {
+				ids := make([]uint64, l)
+				y := x
+				for i := 0; i < l; i++ {
+					ids[i] = alpha[y%len(alpha)]
+					y /= len(alpha)
+				}
+				out = append(out, Tuple{Kind: "multi", IDs: ids, Sc: sc})
+			}
+		}
+	}
+	return
 }
 
 type tsVariant struct {
@@ -657,6 +756,25 @@ func run(r *engine.Run) {
 	}
 	spaceOff += int64(len(accum))
 
+	// ---- space A2: MultiProof batches with pending / nonexistent ids ----
+	batches, bheights := batchTuples(c0, workers[0].state)
+	if len(bheights) < 3 {
+		engine.Fatal3("C12: only %d heights have two resolve blocks and a pending request", len(bheights))
+	}
+	for i, t := range batches {
+		if i%(len(batches)/4+1) == 7 {
+			tally.Sample(24, t)
+		}
+	}
+	before := tally.Evals
+	complete = engine.ParallelFor(int64(len(batches)), nw, deadline, func(wi int, idx int64) { evalAndRecord(wi, idx, batches[idx]) })
+	fmt.Printf("[C12] space A2 (MultiProof batches, %d heights %v): %d tuples, complete=%v, evaluated=%d violations=%d (%.1fs)\n", len(bheights), bheights, len(batches), complete, tally.Evals-before, int(nviol.Load()), time.Since(t0).Seconds())
+	if !complete {
+		r.Exhaustive = false
+		r.CapReasons = append(r.CapReasons, "space A2: internal deadline")
+	}
+	spaceOff += int64(len(batches))
+
 	// ---- space B: vote format ----
 	var vspaces []voteSpace
 	if quick {
@@ -737,6 +855,16 @@ func run(r *engine.Run) {
 	for _, k := range names {
 		fmt.Printf("[C12]   %-48s %d\n", k, r.Outcomes[k])
 	}
+	{
+		whole, part := 0, r.Outcomes["batch-with-missing-id:partial-response-verified"]
+		for k, v := range r.Outcomes {
+			if strings.HasPrefix(k, "batch-with-missing-id:failed-as-a-whole") {
+				whole += v
+			}
+		}
+		r.Notes = append(r.Notes, fmt.Sprintf("MultiProof batches containing an id without a stored result (pending or nonexistent): %d failed as a whole, %d returned a partial response whose every reported proof verified end to end "+
+			"(the unchanged tree fails the whole batch with 'IAVL existence proof not found'; either behaviour satisfies the check, a successful response with a non-verifying proof does not)", whole, part))
+	}
 	r.Notes = append(r.Notes, fmt.Sprintf("stores mounted by the app (sorted): %s", strings.Join(c0.w.StoreNames(), ",")))
 
 	// confirm: every distinct fingerprint must reproduce twice on fresh chains
@@ -771,6 +899,7 @@ func init() {
 		Run: func(r *engine.Run) {
 			r.Bound = "real BandApp committing a fixed scenario of signed txs: N=12 (quick) / 48 (thorough) requests resolving 1-2 per block (14 / 41 blocks). " +
 				"Space A: every header height 3..last x {count proof, Proof(k) for every k<=N, Proof(k, latest) at the last height, MultiProof of every ordered pair and of the full list of stored results}; round, part-set total, flags and slot order of 3 validators rotate with the height. " +
+				"Space A2: at every header height where two results stored by different blocks, a pending request and a never-existing id are all available: MultiProof of every sequence (with repetition) of length 1..3 over {R1,R2,pending,nonexistent}; a batch must fail as a whole or every reported proof must verify end to end. " +
 				"Space B (last block, result N): every assignment of {precommit, nil-precommit, absent} to 1..4 (thorough 1..5) validator slots with >=1 precommit x round {0,1,2}(thorough +2^31-1) x " +
 				"vote timestamps sec {0,1,1.7e9}(thorough +year 9999) x nanos {0,1,999999999} (consecutive variants per slot) x chain-id length 1..20 x slot order {keys ascending, reversed}; " +
 				"thorough also B': 6..7 slots x round {0,1} x 3 timestamps x chain-id length {9,17} x 2 slot orders. " +
@@ -790,7 +919,8 @@ func init() {
 			r.Required = []string{"proof:verified", "count:verified", "multi:verified", "vote-prefix:15B", "vote-prefix:24B",
 				"iavl-step:data-on-right", "iavl-step:data-on-left", "result-status:1", "result-status:2",
 				"signatures:1", "signatures:3", "signatures:4", "vote-timestamp:0B", "vote-timestamp:12B",
-				"out-of-scope(vote>=128B):no-match-address-found", "result-not-stored:IAVL-existence-proof-not-found"}
+				"out-of-scope(vote>=128B):no-match-address-found", "result-not-stored:IAVL-existence-proof-not-found",
+				"batch-shape:all-missing", "batch-shape:first-missing-later-stored", "batch-shape:first-stored-later-missing"}
 			run(r)
 		},
 		Replay: func(raw json.RawMessage, path []string) (engine.StepResult, []string) {
